@@ -22,6 +22,7 @@
 import logging
 import numpy as np
 import numpy.random
+import random
 import sympy
 
 from .mixed_integrator import MixedIntegrator
@@ -136,6 +137,7 @@ class StiffnessTester:
         assert PYGSL_AVAILABLE
 
         np.random.seed(self.random_seed)
+        random.seed(self.random_seed)   # the spike generator draws from Python's ``random`` module
 
         spike_times = SpikeGenerator.spike_times_from_json(self._stimuli, self.sim_time)
 
